@@ -12,6 +12,7 @@ import (
 	"io"
 	"net"
 	"os"
+	"errors"
 	"strings"
 	"sync"
 	"testing"
@@ -36,7 +37,7 @@ func c01Canary(t *rapid.T, a *Asker, p *Proxy, kind string, id uint16, what stri
 }
 
 func TestVfC01Listeners(t *testing.T) {
-	st := vfkit.Stats("TestVfC01Listeners", "hostile inputs per listener kind: UDP datagrams (hostile generator, 0-4096 octets), TCP/gnet/DoT frames with truthful/zero/short/long/64 KiB declared lengths, partial frame then FIN or RST, DoH GET (missing dns=, bad base64, padding, 90 KiB, wrong Accept) and POST (empty, garbage, > 65535, wrong content type, other methods), DoQ streams (no FIN, garbage, oversized prefix, half prefix), hand-written HTTP/1.1 (POST without length, chunked, lying Content-Length, pipelined, HTTP/1.0, TLS or h2 preface on the plain port), octets below the DNS framing (garbage instead of / inside the TLS handshake, a hostile HTTP/2 header block, non-QUIC and half-QUIC datagrams on the DoQ port), each followed by a valid canary query; oracle: process alive without panic, whatever comes back is nothing / close / HTTP 4xx-5xx / a well-formed DNS message, and the canary is answered within 2 s; non-trivial = input that is not a valid query")
+	st := vfkit.Stats("TestVfC01Listeners", "hostile inputs per listener kind: UDP datagrams (hostile generator, 0-4096 octets), TCP/gnet/DoT frames with truthful/zero/short/long/64 KiB declared lengths, partial frame then FIN or RST, DoH GET (missing dns=, bad base64, padding, 90 KiB, wrong Accept, query strings of drawn segments incl. empty ones and repeated or valueless dns keys) and POST (empty, garbage, > 65535, wrong content type, other methods), DoQ streams (no FIN, garbage, oversized prefix, half prefix), hand-written HTTP/1.1 (POST without length, chunked, lying Content-Length, pipelined, HTTP/1.0, TLS or h2 preface on the plain port), octets below the DNS framing (garbage instead of / inside the TLS handshake, a hostile HTTP/2 header block, non-QUIC and half-QUIC datagrams on the DoQ port), each followed by a valid canary query; oracle: process alive without panic, whatever comes back is nothing / close / HTTP 4xx-5xx / a well-formed DNS message, a complete HTTP request is answered or hung up on within 12 s, and the canary is answered within 2 s; non-trivial = input that is not a valid query")
 	defer vfkit.Flush()
 	block := NextIPBlock()
 	up, err := StartUpstream("udp", "up", block+"2", 0, nil, func(q *UpQuery) UpAction {
@@ -313,7 +314,7 @@ func TestVfC01Listeners(t *testing.T) {
 		case "http", "fasthttp", "https":
 			mode := map[string]string{"http": "http", "fasthttp": "http", "https": "h2"}[kind]
 			c := NewDoHClient(mode, "", a.addr(kind), insecure)
-			variant := rapid.SampledFrom([]string{"get-hostile", "get-missing", "get-badb64", "get-padded", "get-huge", "get-wrong-accept", "post-hostile", "post-empty", "post-huge", "post-wrong-ct", "put", "delete", "get-empty-dns"}).Draw(t, "variant")
+			variant := rapid.SampledFrom([]string{"get-hostile", "get-missing", "get-badb64", "get-padded", "get-huge", "get-wrong-accept", "post-hostile", "post-empty", "post-huge", "post-wrong-ct", "put", "delete", "get-empty-dns", "get-segments", "get-segments"}).Draw(t, "variant")
 			what = fmt.Sprintf("%s request %s (class %s)", kind, variant, class)
 			var r *Resp
 			var err error
@@ -352,6 +353,12 @@ func TestVfC01Listeners(t *testing.T) {
 				r, err = c.DoRaw("GET", "dns="+b64, nil, map[string]string{"Accept": "application/dns-message"})
 			case "get-missing":
 				r, err = c.DoRaw("GET", "x=1&&y", nil, map[string]string{"Accept": "application/dns-message"})
+			case "get-segments":
+				// a query string assembled from drawn segments: empty ones, several dns parameters, other parameters first,
+				// a key without value, another spelling of the key
+				segs := rapid.SliceOfN(rapid.SampledFrom([]string{"", "", "dns=" + b64, "dns=" + b64, "dns", "dns=", "x=1", "ct=application/dns-message", "=", "dns=%zz", "DNS=" + b64, "dns=" + b64 + "=="}), 1, 5).Draw(t, "segments")
+				r, err = c.DoRaw("GET", strings.Join(segs, "&"), nil, map[string]string{"Accept": "application/dns-message"})
+				what += fmt.Sprintf(" query string %q", strings.Join(segs, "&"))
 			case "get-empty-dns":
 				r, err = c.DoRaw("GET", "dns=", nil, map[string]string{"Accept": "application/dns-message"})
 			case "get-badb64":
@@ -376,6 +383,14 @@ func TestVfC01Listeners(t *testing.T) {
 				r, err = c.DoRaw("DELETE", "dns="+b64, nil, nil)
 			}
 			c.Close()
+			var ne net.Error
+			if variant != "raw" && !(kind == "https" && strings.Contains(variant, "huge")) && errors.As(err, &ne) && ne.Timeout() {
+				// the request was complete and well-formed HTTP: 12 s (twice the proxy's own request deadline) without a
+				// response and without the connection being closed is a handler that does not come back. (Not judged for the
+				// oversized requests over HTTP/2: there the server rightly kills the connection at once - curl reports
+				// "connection died" after 40 ms - and it is the Go HTTP/2 client that keeps re-dialling until its own time-out.)
+				t.Fatalf("%s: a complete HTTP request got neither a response nor a close within 12 s: %s (%v)", kind, what, err)
+			}
 			if err == nil {
 				if r.Status == 200 {
 					if !r.Msg.Clean() {
